@@ -230,6 +230,16 @@ class Conf:
             return T.OP if leaf.type == 'operator' else T.NAME
         return LEAFTYPE.get(leaf.type)
 
+    strict_newline = False     # True: a statement may lack its NEWLINE only when nothing but the end marker follows it
+
+    @staticmethod
+    def at_eof(child):
+        last = child.get_last_leaf() if hasattr(child, 'children') else child
+        nxt = last.get_next_leaf()
+        while nxt is not None and nxt.type == 'error_leaf' and nxt.value == '':
+            nxt = nxt.get_next_leaf()
+        return nxt is None or nxt.type == 'endmarker'
+
     def stands_for(self, X, child, depth=0):
         if depth > 60:
             return False
@@ -240,7 +250,8 @@ class Conf:
         start = self.dfas[X][0]
         for label, nxt in start.arcs.items():
             if not nxt.is_final:
-                if not (X == 'simple_stmt' and nxt.arcs.get('NEWLINE') is not None and nxt.arcs['NEWLINE'].is_final):
+                if not (X == 'simple_stmt' and nxt.arcs.get('NEWLINE') is not None and nxt.arcs['NEWLINE'].is_final
+                        and (not self.strict_newline or self.at_eof(child))):
                     continue
             if label in self.dfas:
                 if self.stands_for(label, child, depth + 1):
@@ -302,7 +313,19 @@ def conf_for(v):
 
 
 def c05_conforms(v, m):
+    # the conventions, with the final newline allowed to be absent only in front of the end marker; a tree that fails only for a statement without
+    # NEWLINE inside the file is named so
+    strict = _c05_conforms(v, m, True)
+    if strict is None:
+        return None
+    if _c05_conforms(v, m, False) is None:
+        return 'C05:statement-without-newline-inside-the-file'
+    return strict
+
+
+def _c05_conforms(v, m, strict_newline):
     conf = conf_for(v)
+    conf.strict_newline = strict_newline
     problems = []
 
     def check(node):
@@ -356,7 +379,7 @@ def c05_conforms(v, m):
                 problems.append('C05:unknown-rule:%s' % t)
                 ok = True
             else:
-                ok = conf.run(t, ch, allow_missing_newline=(t == 'simple_stmt'))
+                ok = conf.run(t, ch, allow_missing_newline=(t == 'simple_stmt' and (not strict_newline or conf.at_eof(node))))
         if not ok:
             problems.append('C05:nonconforming:%s' % t)
         for c in ch:
